@@ -55,6 +55,7 @@ class State:
         self.handlers: list[list[str]] = []  # stack of exception class lists caught by enclosing try
         self.loop_frames: list = []  # stack of (top_at_entry, allowed write descriptors)
         self.out = None  # V of the ghost yield list for generator units
+        self.hbase = None  # HeapModel.base (shared): arrays still equal to their entry value do not count as changes
 
     def fork(self) -> "State":
         s = State.__new__(State)
@@ -69,6 +70,8 @@ class State:
         s.handlers = [list(h) for h in self.handlers]
         s.loop_frames = list(self.loop_frames)
         s.out = self.out
+        s.hbase = self.hbase
+        s.spec = getattr(self, "spec", False)
         return s
 
     def assume(self, c):
@@ -77,7 +80,8 @@ class State:
         self.pc.append(c)
 
     def sig(self):
-        return (tuple(sorted((k, v.get_id()) for k, v in self.heap.items())), self.top.get_id(), len(self.draws))
+        hb = self.hbase or {}
+        return (tuple(sorted((k, v.get_id()) for k, v in self.heap.items() if not (k in hb and hb[k].get_id() == v.get_id()))), self.top.get_id(), len(self.draws))
 
 
 class HeapModel:
